@@ -646,3 +646,38 @@ Proof.
   exists [start [ls_incr_sec 7%N] [1]; start [ls_incr_sec 7%N] [1]], [0; 1; 0; 0; 1; 1]%nat.
   split; vm_compute; [reflexivity|discriminate].
 Qed.
+
+(* ---------------------------------------------------------------------------------------------- *)
+(* the whole metrics struct: every translated Record function has the accepted shape for every location *)
+
+Lemma prog_ok_role : forall roles secs l r, prog_ok roles secs = true -> In (l, r) roles -> role_ok secs (l, r) = true.
+Proof.
+  intros roles secs l r H Hin. unfold prog_ok in H. apply andb_true_iff in H. destruct H as [_ H].
+  rewrite forallb_forall in H. now apply H.
+Qed.
+
+Theorem metrics_exact : forall roles progs,
+  forallb (prog_ok roles) progs = true ->
+  forall init ts sched,
+    (forall t, In t ts -> In (t_secs t) progs /\ t_si t = 0%nat /\ t_pc t = 0%nat) ->
+    let c := run (init, ts) sched in
+    all_done (snd c) = true ->
+    forall l r, In (l, r) roles ->
+      match r with
+      | RCounter => fst c l = init l + sumZ (map (contrib_total l) ts)
+      | RMax => fst c l = maxZ (init l) (all_recorded l ts)
+      | RMin => (init l = -1 \/ 0 <= init l) -> (forall x, In x (all_recorded l ts) -> 0 <= x) ->
+                fst c l = minZ (init l) (all_recorded l ts)
+      | RStamp => True
+      end.
+Proof.
+  intros roles progs Hok init ts sched Hts c Hd l r Hin.
+  rewrite forallb_forall in Hok.
+  assert (Hr : forall t, In t ts -> role_ok (t_secs t) (l, r) = true).
+  { intros t Ht. destruct (Hts t Ht) as (Hp & _ & _). eapply prog_ok_role; eauto. }
+  destruct r; cbn [role_ok fst snd] in Hr.
+  - apply counters_exact; auto. intros t Ht. destruct (Hts t Ht) as (_ & Hs & _). auto.
+  - apply max_exact; auto. intros t Ht. destruct (Hts t Ht) as (_ & Hs & Hp). auto.
+  - intros Hi Hv. apply min_exact; auto. intros t Ht. destruct (Hts t Ht) as (_ & Hs & Hp). auto.
+  - exact I.
+Qed.
